@@ -56,6 +56,9 @@ RULE = ("seeded samples (n in 8..400) drawn from Weibull / Gumbel / GumbelMin wi
         "list of ints / list of floats / float64 fitted before or after the float64 spelling; exact quantile samples in units "
         "of scale/1000, n >= 300, or random samples in units of scale/8; a second float64 sample of the same size afterwards); "
         "corpus cases first; "
+        "population moments: Gumbel / GumbelMin objects with (loc, scale) from a fixed pool (|loc|/scale from 0 to 2000, scale "
+        "0.01..1000) plus seeded random pairs, beta0, beta1, M101, variance by scipy quadrature of the object's own pdf / cdf, the "
+        "real pwm / msm called on two-point samples that carry exactly these moments; "
         "non-trivial = every sample (all have distinct values); distinct by (distribution, parameters, n, seed)")
 
 
@@ -883,6 +886,158 @@ def gen_reject(rng, kind, names, cur, sc):
     return [st, dict(method=rng.choice(names), a=cur[0], b=cur[1], via="keep")]
 
 
+# ---- population moments: the closed-form Gumbel estimators at the moments of the distribution itself ---------------------------
+# Lean: Props/C16 gumbel_beta1, gumbel_m101, gumbel_pwm_population(_exact/_error), gumbelPwm_of_population_moments,
+# population_sample_exists, gumbel_msm_population_loc_partial, gumbelMin_msm_population_loc_partial.
+# The closed-form step of gumbel.pwm (b = (m0 - 2 m1)/log 2, a = m0 - c b) is NOT separately callable (m0, m1 are locals of
+# pwm); it is reached in two ways: (i) the real gumbel.pwm on the two-point ascending sample [2 M101, 2 b0 - 2 M101], whose
+# sample moments mk(.,0), mk(.,1) are exactly (b0, M101) (theorem population_sample_exists); (ii) the formulas gu_pwm_b,
+# gu_pwm_a that the translator regenerates from the source on every run, executed by the Lean driver (est.gupwmform).
+# msm: the real msm on the two-point sample [mean - d, mean + d], d = sqrt(var/2) (unbiased sample std = sqrt(var)), with
+# mean and var by quadrature (the variance step pi^2/6 scale^2 is not proved in Lean: measured here).
+POP_POOL = [(0.0, 1.0), (1.5, 2.0), (-20.0, 0.3), (1000.0, 7.0), (-3.3, 19.9), (0.0, 0.01), (-1.0e4, 50.0), (7.0, 1.0e3)]
+POP_XS = (-2.0, -0.5, 0.0, 1.0, 3.0, 8.0)
+
+
+def pop_quad(d, loc, scale, weight, minima=False):
+    """integral of weight(x, pdf(x), cdf(x)) over the support that carries the mass (pdf < 1e-20/scale outside), pdf / cdf of the
+    real distribution object"""
+    from scipy.integrate import quad
+    lo, hi, pts = -12.0, 50.0, [-2.0, 0.0, 3.0, 10.0]
+    if minima:
+        lo, hi, pts = -hi, -lo, [-v for v in reversed(pts)]
+
+    def f(x):
+        a = np.array([x])
+        return float(weight(x, float(d.pdf(x=a)[0]), float(d.cdf(x=a)[0])))
+    import warnings
+    with warnings.catch_warnings():
+        warnings.simplefilter("ignore")                            # "roundoff prevents the requested tolerance" (1e-13) is expected
+        return float(quad(f, loc + lo * scale, loc + hi * scale, points=[loc + v * scale for v in pts],
+                          epsabs=1e-13, epsrel=1e-13, limit=400)[0])
+
+
+def eval_population(Q, inp):
+    """returns dict(fails=[(oracle, expected, observed)], ties=[(stream, model, impl)], b0=, m101=, pwm_pair=, msm_pair=)"""
+    loc, scale = float(inp["loc"]), float(inp["scale"])
+    G, L2 = float(np.euler_gamma), math.log(2.0)
+    gu, gm = Q["cls"]["gu"](loc, scale), Q["cls"]["gm"](loc, scale)
+    fails, ties = [], []
+    tol = 1e-7 * scale + 1e-9 * abs(loc)
+    tq = 1e-9 * (scale + abs(loc))
+    with np.errstate(all="ignore"):
+        b0 = pop_quad(gu, loc, scale, lambda x, f, F: x * f)
+        b1 = pop_quad(gu, loc, scale, lambda x, f, F: x * F * f)
+        m101 = pop_quad(gu, loc, scale, lambda x, f, F: x * (1.0 - F) * f)
+        var = pop_quad(gu, loc, scale, lambda x, f, F: (x - b0) ** 2 * f)
+        n0 = pop_quad(gm, loc, scale, lambda x, f, F: x * f, minima=True)
+        nvar = pop_quad(gm, loc, scale, lambda x, f, F: (x - n0) ** 2 * f, minima=True)
+    # theorem values against the implementation's pdf / cdf (tie of the Lean statements to the real objects)
+    for nm, model, impl in (("beta0 = loc + gamma*scale", loc + G * scale, b0),
+                            ("beta1 = (loc + scale*log2 + gamma*scale)/2", 0.5 * (loc + scale * L2 + G * scale), b1),
+                            ("M101 = (loc + gamma*scale - scale*log2)/2", 0.5 * (loc + G * scale - scale * L2), m101),
+                            ("M101 = beta0 - beta1", b0 - b1, m101),
+                            ("GumbelMin mean = loc - gamma*scale", loc - G * scale, n0)):
+        if not abs(model - impl) <= tq:
+            ties.append(("population.moment:" + nm, model, impl))
+    sh = Q["cls"]["gu"](loc + scale * L2, scale)
+    xs = np.array([loc + v * scale for v in POP_XS])
+    with np.errstate(all="ignore"):
+        F, f, Fs, fs = gu.cdf(x=xs), gu.pdf(x=xs), sh.cdf(x=xs), sh.pdf(x=xs)
+    for i in range(len(xs)):
+        if not close(float(F[i]) ** 2, float(Fs[i]), 1e-11):
+            ties.append(("population.cdf^2 = cdf(loc + scale*log2)", float(Fs[i]), float(F[i]) ** 2))
+        if not close(float(F[i] * f[i]), 0.5 * float(fs[i]), 1e-11):
+            ties.append(("population.cdf*pdf = pdf(loc + scale*log2)/2", 0.5 * float(fs[i]), float(F[i] * f[i])))
+    c = float(Q["mod"]["gu"]._euler_masceroni())
+    if not abs(c - G) <= 1e-15:
+        ties.append(("population.euler-mascheroni-literal", G, c))
+    # the real estimators on two-point samples that carry the population moments exactly
+    out = dict(fails=fails, ties=ties, b0=b0, m101=m101, pwm_pair=None, msm_pair=None, gm_mean=n0)
+    pair = np.array([2.0 * m101, 2.0 * b0 - 2.0 * m101])
+    try:
+        with np.errstate(all="ignore"):
+            est = [float(v) for v in Q["mod"]["gu"].pwm(pair)]
+        out["pwm_pair"] = est
+        if not (abs(est[0] - loc) <= tol and abs(est[1] - scale) <= tol):
+            fails.append(("gumbel.pwm recovers (loc, scale) from the population probability-weighted moments (beta0 = E[X], "
+                          "M101 = E[X(1-F)] by quadrature of the Gumbel object's pdf / cdf; fitted on the two-point sample "
+                          "[2 M101, 2 beta0 - 2 M101] whose sample moments are exactly these) to 1e-7", [loc, scale], est))
+    except Exception as e:                                         # noqa
+        fails.append(("gumbel.pwm must not raise on the two-point sample carrying the population moments", "fit",
+                      "%s: %s" % (type(e).__name__, e)))
+    for kind, mean, v in (("gu", b0, var), ("gm", n0, nvar)):
+        d = math.sqrt(max(v, 0.0) / 2.0)
+        try:
+            with np.errstate(all="ignore"):
+                est = [float(t) for t in Q["mod"][kind].msm(np.array([mean - d, mean + d]))]
+            if kind == "gu":
+                out["msm_pair"] = est
+            else:
+                out["gm_msm_pair"] = est
+            if not (abs(est[0] - loc) <= tol and abs(est[1] - scale) <= tol):
+                fails.append(("%s.msm recovers (loc, scale) from the population mean and variance (quadrature of the object's pdf; "
+                              "fitted on the two-point sample [mean - d, mean + d], d = sqrt(var/2)) to 1e-7"
+                              % Q["mod"][kind].__name__, [loc, scale], est))
+        except Exception as e:                                     # noqa
+            fails.append(("%s.msm must not raise on the two-point sample carrying the population moments" % kind, "fit",
+                          "%s: %s" % (type(e).__name__, e)))
+    return out
+
+
+def run_population(chk, Q, drv):
+    rng = chk.rng
+    cases = list(POP_POOL)
+    for _ in range(6 if chk.quick else 60):
+        cases.append((round(rng.uniform(-50, 50), 2), round(10 ** rng.uniform(-1.5, 1.5), 4)))
+    lines, meta = [], []
+    for loc, scale in cases:
+        inp = dict(case="population", loc=loc, scale=scale)
+        chk.dist("population.loc/scale~1e%+d" % (int(round(math.log10(abs(loc) / scale))) if loc else -99))
+        chk.nontriv("population:%r:%r" % (loc, scale))
+        try:
+            r = eval_population(Q, inp)
+        except Exception as e:                                     # never a harness crash
+            chk.count("population.gu.pwm")
+            chk.fail("evaluating the clauses must not raise (population moments)", inp, "moments", "%s: %s" % (type(e).__name__, e))
+            continue
+        chk.count("population.gu.pwm")
+        chk.count("population.gu.msm")
+        chk.count("population.gm.msm")
+        for stream, model, impl in r["ties"]:
+            chk.disagree(stream, inp, model, impl)
+        for oracle, exp, obs in r["fails"]:
+            chk.fail(oracle, inp, exp, obs, method="pwm" if ".pwm" in oracle else "msm")
+        lines.append("est.gupwmform %s %s" % (fbits(r["b0"]), fbits(r["m101"])))
+        meta.append((inp, "pwm", r))
+        lines.append("est.msmloc %s %s" % (fbits(scale), fbits(r["b0"])))
+        meta.append((inp, "msmloc.gu", r))
+        lines.append("est.msmloc %s %s" % (fbits(scale), fbits(r["gm_mean"])))
+        meta.append((inp, "msmloc.gm", r))
+    outs = drv.run(lines)
+    for (inp, what, r), o in zip(meta, outs):
+        chk.count("est.population." + what)
+        loc, scale = inp["loc"], inp["scale"]
+        tol = 1e-7 * scale + 1e-9 * abs(loc)
+        try:
+            m = fl(o)
+        except Exception:                                          # noqa
+            chk.disagree("est.population." + what, inp, o, "ok ...")
+            continue
+        if what == "pwm":
+            # generated formulas (Lean, Float) at the population moments: (loc, scale) [theorem gumbel_pwm_population] and equal
+            # to what the real estimator computes from the same moments
+            if not (abs(m[0] - loc) <= tol and abs(m[1] - scale) <= tol):
+                chk.disagree("est.population.pwm-formulas-return-loc-scale", inp, m, [loc, scale])
+            if r["pwm_pair"] is not None and not all(abs(a - b) <= 1e-9 * (scale + abs(loc)) for a, b in zip(m, r["pwm_pair"])):
+                chk.disagree("est.population.pwm-formulas-vs-gumbel.pwm", inp, m, r["pwm_pair"])
+        else:
+            got = m[0] if what == "msmloc.gu" else m[1]
+            if not abs(got - loc) <= tol:
+                chk.disagree("est.population.%s-formula-returns-loc" % what, inp, got, loc)
+    chk.sample(dict(case="population", loc=cases[1][0], scale=cases[1][1]))
+
+
 def run(chk):
     from qats.stats import weibull, gumbel, gumbelmin
     from qats.stats.weibull import Weibull
@@ -892,7 +1047,10 @@ def run(chk):
     chk.extra["rule"] = RULE
     chk.partial += ["solver convergence (fsolve / leastsq / brentq return a root / minimiser of the function they are given) is "
                     "assumed; checked by evaluating the residual at the returned point",
-                    "consistency (recovery of the parameters of an exact large sample) is a measurement on 10^4-point quantile samples"]
+                    "consistency (recovery of the parameters of an exact large sample) is a measurement on 10^4-point quantile samples; "
+                    "proved at the population level for the Gumbel pwm (gumbel_pwm_population*) and for the location step of the "
+                    "Gumbel / GumbelMin msm (…_population_loc_partial); not proved: convergence of the sample moments mk(x,k) to "
+                    "E[X(1-F)^k], the variance pi^2/6*scale^2 of the Gumbel density (msm scale step), Weibull and the iterative methods"]
     rng = chk.rng
     hung = set()
 
@@ -1175,6 +1333,8 @@ def run(chk):
                         and (k == 2 or abs(est[2] - true[2]) <= 3 * tol * true[2])):
                     chk.fail("every method recovers the parameters of a large exact sample (10^4 quantiles, 3-9 %%)",
                              rec_inp, list(true), [float(v) for v in est], method=name)
+    # ---- population moments: closed-form Gumbel estimators at the moments of the distribution itself (proved; tied here) ----------
+    run_population(chk, Q, drv)
     # ---- the same sample in other representations; histories of fits on one object / sequences of calls ------------------------
     for c in corpus:
         if c.get("case") == "firstuse":
@@ -1241,6 +1401,14 @@ def replay(rp):
     from qats.stats.gumbel import Gumbel
     from qats.stats.gumbelmin import GumbelMin
     inp = rp["input"]
+    if inp.get("case") == "population":
+        r = eval_population(qmods(), inp)
+        for stream, model, impl in r["ties"]:
+            print("TIE BROKEN: %s\n   theorem %s\n   implementation %s" % (stream, model, impl))
+        for oracle, exp, obs in r["fails"]:
+            print("FAILS: %s\n   expected %s\n   observed %s" % (oracle, exp, obs))
+        print("replay: %d failing clause(s)" % len(r["fails"]))
+        return 1 if r["fails"] else 0
     if inp.get("case") in ("container", "history", "app", "signal", "firstuse"):
         ev = dict(container=eval_container, history=eval_history, app=eval_app, signal=eval_signal, firstuse=eval_firstuse)[inp["case"]]
         if inp["case"] in ("history", "firstuse"):                 # may contain rejected requests: never hang
